@@ -175,7 +175,8 @@ def one(rep, prog, cfg):
         fl = Flow(ff[0])
         # result derives from the get() value
         pbody = None
-        for fb in family(prog, ff[0]):
+        from ..common import with_private_callees
+        for fb in with_private_callees(prog, ff[0]):        # the table may sit in a private helper (`from_raw_name`)
             if tables.str_compares(fb):
                 pbody = fb
         if pbody is not None:
